@@ -40,6 +40,7 @@ import (
 	"github.com/kardiachain/go-kardia/kai/kaidb/memorydb"
 	"github.com/kardiachain/go-kardia/kai/state"
 	"github.com/kardiachain/go-kardia/lib/common"
+	"github.com/kardiachain/go-kardia/lib/crypto"
 )
 
 // ---------------------------------------------------------------------------------------------
@@ -1541,6 +1542,89 @@ func vfGenCreate(r *vfRand) *vfProg {
 	return &vfProg{kind: "create", code: a.bytes(), input: ic, gas: uint64(r.Pick(3000000, 200000)), storage: vfGenStorage(r)}
 }
 
+// calls into the precompiled contracts 1..8 (and the unused address 9) with inputs that are valid,
+// boundary or garbage, with gas below and above the contract's price, through every call opcode
+func vfGenPrecompile(r *vfRand) *vfProg {
+	pad := func(b []byte) []byte { return common.LeftPadBytes(b, 32) }
+	addr := byte(1 + r.Intn(9))
+	var in []byte
+	switch addr {
+	case 1:
+		h := r.Bytes(32)
+		key, _ := crypto.ToECDSA(common.LeftPadBytes([]byte{byte(1 + r.Intn(200))}, 32))
+		sig, err := crypto.Sign(h, key)
+		if err != nil || r.Chance(15) {
+			in = r.Bytes(r.Pick(0, 64, 127, 128, 200))
+			break
+		}
+		in = append(append(append(append([]byte{}, h...), pad([]byte{sig[64] + 27})...), sig[:32]...), sig[32:64]...)
+		switch r.Intn(6) {
+		case 0:
+			in[63] = byte(r.Pick(0, 1, 26, 29, 255)) // bad v
+		case 1:
+			in[40] = 1 // non-zero padding of v
+		case 2:
+			in = in[:r.Pick(32, 100, 127)] // short: right-padded with zeros
+		case 3:
+			copy(in[96:], bytes.Repeat([]byte{0xff}, 32)) // s out of range
+		}
+	case 2, 3, 4:
+		in = r.Bytes(r.Pick(0, 1, 31, 32, 33, 64, 200))
+	case 5:
+		bl, el, ml := r.Pick(0, 1, 2, 32), r.Pick(0, 1, 2, 32), r.Pick(0, 1, 2, 32)
+		in = append(append(pad([]byte{byte(bl)}), pad([]byte{byte(el)})...), pad([]byte{byte(ml)})...)
+		in = append(in, r.Bytes(bl+el+ml)...)
+		if r.Chance(20) {
+			in = in[:r.Intn(len(in)+1)]
+		}
+		if r.Chance(10) {
+			in = r.Bytes(r.Pick(0, 50, 96))
+		}
+	case 6:
+		g := append(pad([]byte{1}), pad([]byte{2})...)
+		in = append(append([]byte{}, g...), g...)
+		switch r.Intn(4) {
+		case 0:
+			in = append(append([]byte{}, g...), make([]byte, 64)...) // P + 0
+		case 1:
+			in = r.Bytes(128) // almost surely not on the curve
+		case 2:
+			in = in[:r.Pick(0, 64, 100)]
+		}
+	case 7:
+		g := append(pad([]byte{1}), pad([]byte{2})...)
+		in = append(append([]byte{}, g...), pad(r.Bytes(r.Pick(0, 1, 2, 32)))...)
+		if r.Chance(25) {
+			in = r.Bytes(r.Pick(0, 96, 64))
+		}
+	case 8:
+		switch r.Intn(3) {
+		case 0:
+			in = nil // empty product = 1
+		case 1:
+			in = r.Bytes(192) // not on the curve
+		default:
+			in = r.Bytes(r.Pick(1, 191, 193)) // not a multiple of 192
+		}
+	default:
+		in = r.Bytes(r.Intn(64))
+	}
+	callOp := byte(r.Pick(0xf1, 0xfa, 0xf4, 0xf2))
+	a := vfNewAsm()
+	a.op(0x36).pushU(0).pushU(0).op(0x37)  // CALLDATACOPY(0, 0, CALLDATASIZE)
+	a.pushU(64).pushU(256).op(0x36).pushU(0) // out size 64, out offset 256, in size, in offset 0
+	if callOp == 0xf1 || callOp == 0xf2 {
+		a.pushU(0)
+	}
+	a.pushU(uint64(addr)).pushU(uint64(r.Pick(100, 700, 3000, 50000, 200000, 3000000))).op(callOp)
+	a.pushU(1).op(0x55)                      // success flag -> slot 1
+	a.op(0x3d).pushU(2).op(0x55)             // RETURNDATASIZE -> slot 2
+	a.pushU(256).op(0x51).pushU(3).op(0x55)  // first output word -> slot 3
+	a.op(0x3d).pushU(0).pushU(512).op(0x3e)  // RETURNDATACOPY(512, 0, RETURNDATASIZE)
+	a.op(0x3d).pushU(512).op(0xf3)           // RETURN the whole return data
+	return &vfProg{kind: "precompile", code: a.bytes(), input: in, gas: uint64(r.Pick(3000000, 250000)), storage: vfGenStorage(r)}
+}
+
 // a state-changing opcode, to be rejected in a static context
 func vfGenWrite(r *vfRand) *vfProg {
 	a := vfNewAsm()
@@ -1875,8 +1959,10 @@ func TestVerifC10(t *testing.T) {
 			p = vfGenNested(r)
 		case k < 91:
 			p = vfGenJumpyDelegate(r)
-		case k < 96:
+		case k < 95:
 			p = vfGenCreate(r)
+		case k < 98:
+			p = vfGenPrecompile(r)
 		default:
 			p = vfGenWrite(r)
 		}
